@@ -441,7 +441,13 @@ def check_locked(cfg, tier, seed, replay=None):
             rc, out = 124, "harness timed out"
         log.append(("harness " + rid, rc, out))
         if rc != 0:
-            problems.append({"kind": "harness", "detail": "harness %s exited with %d" % (rid, rc), "output": out[-3000:]})
+            if "WARNING: DATA RACE" in out:
+                # the race detector exhibited a concrete racy pair of accesses: that is the failing schedule
+                failures.append({"site": "library (concurrent use)", "class": "data-race",
+                                 "input": {"seed": seed, "tier": tier, "harness": rid},
+                                 "detail": out[out.index("WARNING: DATA RACE"):][:3000]})
+            else:
+                problems.append({"kind": "harness", "detail": "harness %s exited with %d" % (rid, rc), "output": out[-3000:]})
             continue
         pm = json.load(open(os.path.join(rdir, "meta.json")))
         # merge the parts' metadata
